@@ -73,24 +73,29 @@ theorem slice_of_drop {s : CurState} {B tail : List Bool} {n : Nat}
   unfold slice
   rw [hin, ← hB, List.take_left]
 
+/-- no stack limit configured: there is always room (the round-trip theorems of C07 are about interpreters without a
+    stack limit; what a limit does to a read is C06's `read_refused_moves_nothing`) -/
+theorem full_none {s : CurState} (h : s.stackLimit = none) : full s = false := by
+  simp [full, h]
+
 theorem readWith_eval (s : CurState) (n : Nat) (conv : List Bool → Outcome Cell) (B tail : List Bool)
     (c : Cell) (hpos : s.pos ≤ s.input.length) (hin : s.input.drop s.pos = B ++ tail)
-    (hB : B.length = n) (hbuf : s.base + s.input.length ≤ usizeMaxN) (hc : conv B = .ok c) :
+    (hB : B.length = n) (hbuf : s.base + s.input.length ≤ usizeMaxN) (hc : conv B = .ok c)
+    (hlim : s.stackLimit = none := by assumption) :
     readWith s n conv = ({ s with pos := s.pos + n, ds := c :: s.ds }, .ok ()) := by
   obtain ⟨hfit, hsl⟩ := slice_of_drop hpos hin hB
   have h1 : ¬ (s.base + s.pos + n > usizeMaxN) := by omega
-  have h3 : s.base ≤ s.base + s.pos + n ∧ s.base + s.pos + n ≤ s.base + s.input.length := by omega
   unfold slice at hsl
-  simp only [readWith, peek, h1, hfit, if_true, if_false, lift, hsl, hc, moveThen, h3, pushC, and_self]
-  congr 2
-  omega
+  simp only [readWith_eq, peek, h1, hfit, if_true, if_false, lift, hsl, hc, full_none hlim, Bool.false_eq_true]
 
 /-! ### evaluation of the single words used by the parse programs -/
 
 theorem step_bo (s : CurState) (big : Bool) : step s (boOp big) = ({ s with bigEndian := big }, .ok ()) := by
   cases big <;> rfl
 
-theorem step_push (s : CurState) (c : Cell) : step s (.push c) = ({ s with ds := c :: s.ds }, .ok ()) := rfl
+theorem step_push (s : CurState) (c : Cell) (hlim : s.stackLimit = none := by assumption) :
+    step s (.push c) = ({ s with ds := c :: s.ds }, .ok ()) := by
+  simp [step, pushC, full_none hlim]
 
 section
 variable (s : CurState) (t : List Cell) (B tail : List Bool)
@@ -103,38 +108,38 @@ theorem usize_of_fit : B.length ≤ usizeMaxN := by
 
 theorem step_sized_eval (w : Nat) (hds : s.ds = .int (w : Nat) :: t) (hB : B.length = w)
     (conv : List Bool → Outcome Cell) (c : Cell) (hc : conv B = .ok c) (op : POp)
-    (hop : step s op = popUsize s fun n s => readWith s n conv) :
+    (hop : step s op = popUsize s fun n s => readWith s n conv) (hlim : s.stackLimit = none := by assumption) :
     step s op = ({ s with pos := s.pos + w, ds := c :: t }, .ok ()) := by
   have hw : w ≤ usizeMaxN := by rw [← hB]; exact usize_of_fit s B tail hpos hin hbuf
   rw [hop]
   simp only [popUsize, popCell, hds, lift, toUsize_nat w hw]
   rw [readWith_eval { s with ds := t } w conv B tail c hpos hin hB hbuf hc]
 
-theorem step_int_eval (w : Nat) (hds : s.ds = .int (w : Nat) :: t) (hB : B.length = w) (hw : w ≤ 128) :
+theorem step_int_eval (w : Nat) (hds : s.ds = .int (w : Nat) :: t) (hB : B.length = w) (hw : w ≤ 128) (hlim : s.stackLimit = none := by assumption) :
     step s .int = ({ s with pos := s.pos + w, ds := numCell (.int (toInt s.bigEndian B)) w s.bigEndian :: t }, .ok ()) := by
   apply step_sized_eval s t B tail hpos hin hbuf w hds hB (convSigned s.bigEndian)
   · simp [convSigned, hB]; omega
   · rfl
 
-theorem step_uint_eval (w : Nat) (hds : s.ds = .int (w : Nat) :: t) (hB : B.length = w) (hw : w ≤ 127) :
+theorem step_uint_eval (w : Nat) (hds : s.ds = .int (w : Nat) :: t) (hB : B.length = w) (hw : w ≤ 127) (hlim : s.stackLimit = none := by assumption) :
     step s .uint = ({ s with pos := s.pos + w, ds := numCell (.int (toUint s.bigEndian B)) w s.bigEndian :: t }, .ok ()) := by
   apply step_sized_eval s t B tail hpos hin hbuf w hds hB (convUnsigned s.bigEndian)
   · simp [convUnsigned, hB]; omega
   · rfl
 
-theorem step_bits_eval (w : Nat) (hds : s.ds = .int (w : Nat) :: t) (hB : B.length = w) :
+theorem step_bits_eval (w : Nat) (hds : s.ds = .int (w : Nat) :: t) (hB : B.length = w) (hlim : s.stackLimit = none := by assumption) :
     step s .bits = ({ s with pos := s.pos + w, ds := .bitstr B :: t }, .ok ()) := by
   apply step_sized_eval s t B tail hpos hin hbuf w hds hB (fun bs => .ok (.bitstr bs))
   · rfl
   · rfl
 
-theorem step_readI_eval (w : Nat) (bo : Option Bool) (hB : B.length = w) (hw : w ≤ 128) :
+theorem step_readI_eval (w : Nat) (bo : Option Bool) (hB : B.length = w) (hw : w ≤ 128) (hlim : s.stackLimit = none := by assumption) :
     step s (.readI w bo) = ({ s with pos := s.pos + w, ds := numCell (.int (toInt (byteorder s bo) B)) w (byteorder s bo) :: s.ds }, .ok ()) := by
   simp only [step]
   rw [readWith_eval s w _ B tail _ hpos hin hB hbuf]
   simp [convSigned, hB]; omega
 
-theorem step_readU_eval (w : Nat) (bo : Option Bool) (hB : B.length = w) (hw : w ≤ 127) :
+theorem step_readU_eval (w : Nat) (bo : Option Bool) (hB : B.length = w) (hw : w ≤ 127) (hlim : s.stackLimit = none := by assumption) :
     step s (.readU w bo) = ({ s with pos := s.pos + w, ds := numCell (.int (toUint (byteorder s bo) B)) w (byteorder s bo) :: s.ds }, .ok ()) := by
   simp only [step]
   rw [readWith_eval s w _ B tail _ hpos hin hB hbuf]
@@ -223,33 +228,33 @@ variable (s : CurState) (t : List Cell) (B tail : List Bool)
   (hbuf : s.base + s.input.length ≤ usizeMaxN)
 include hpos hin hbuf
 
-theorem step_float32_eval (hds : s.ds = .int ((32 : Nat) : Nat) :: t) (hB : B.length = 32) :
+theorem step_float32_eval (hds : s.ds = .int ((32 : Nat) : Nat) :: t) (hB : B.length = 32) (hlim : s.stackLimit = none := by assumption) :
     step s .float = ({ s with pos := s.pos + 32, ds := numCell (.real (f32to64 (UInt32.ofNat (toUint s.bigEndian B)))) 32 s.bigEndian :: t }, .ok ()) := by
   have hw : 32 ≤ usizeMaxN := by decide
   simp only [step, popUsize, popCell, hds, lift, toUsize_nat 32 hw]
   rw [readWith_eval { s with ds := t } 32 _ B tail _ hpos hin hB hbuf]
   simp [convFloat, hB]
 
-theorem step_float64_eval (hds : s.ds = .int ((64 : Nat) : Nat) :: t) (hB : B.length = 64) :
+theorem step_float64_eval (hds : s.ds = .int ((64 : Nat) : Nat) :: t) (hB : B.length = 64) (hlim : s.stackLimit = none := by assumption) :
     step s .float = ({ s with pos := s.pos + 64, ds := numCell (.real (UInt64.ofNat (toUint s.bigEndian B))) 64 s.bigEndian :: t }, .ok ()) := by
   have hw : 64 ≤ usizeMaxN := by decide
   simp only [step, popUsize, popCell, hds, lift, toUsize_nat 64 hw]
   rw [readWith_eval { s with ds := t } 64 _ B tail _ hpos hin hB hbuf]
   simp [convFloat, hB]
 
-theorem step_readF32_eval (bo : Option Bool) (hB : B.length = 32) :
+theorem step_readF32_eval (bo : Option Bool) (hB : B.length = 32) (hlim : s.stackLimit = none := by assumption) :
     step s (.readF 32 bo) = ({ s with pos := s.pos + 32, ds := numCell (.real (f32to64 (UInt32.ofNat (toUint (byteorder s bo) B)))) 32 (byteorder s bo) :: s.ds }, .ok ()) := by
   simp only [step]
   rw [readWith_eval s 32 _ B tail _ hpos hin hB hbuf]
   simp [convFloat, hB]
 
-theorem step_readF64_eval (bo : Option Bool) (hB : B.length = 64) :
+theorem step_readF64_eval (bo : Option Bool) (hB : B.length = 64) (hlim : s.stackLimit = none := by assumption) :
     step s (.readF 64 bo) = ({ s with pos := s.pos + 64, ds := numCell (.real (UInt64.ofNat (toUint (byteorder s bo) B))) 64 (byteorder s bo) :: s.ds }, .ok ()) := by
   simp only [step]
   rw [readWith_eval s 64 _ B tail _ hpos hin hB hbuf]
   simp [convFloat, hB]
 
-theorem step_bytes_eval (m : Nat) (hds : s.ds = .int (m : Nat) :: t) (hB : B.length = m * 8) :
+theorem step_bytes_eval (m : Nat) (hds : s.ds = .int (m : Nat) :: t) (hB : B.length = m * 8) (hlim : s.stackLimit = none := by assumption) :
     step s .bytes = ({ s with pos := s.pos + m * 8, ds := .bitstr B :: t }, .ok ()) := by
   have hw : m * 8 ≤ usizeMaxN := by rw [← hB]; exact usize_of_fit s B tail hpos hin hbuf
   have hm : m ≤ usizeMaxN := by omega
@@ -259,7 +264,7 @@ theorem step_bytes_eval (m : Nat) (hds : s.ds = .int (m : Nat) :: t) (hB : B.len
   rw [readWith_eval { s with ds := t } (m * 8) _ B tail (.bitstr B) hpos hin hB hbuf rfl]
 
 theorem step_cstr_eval (l : List Nat) (hl : ∀ b ∈ l, 0 < b ∧ b < 256) (hB : B = bytesToBits (l ++ [0]))
-    (h8 : (B ++ tail).length % 8 = 0) :
+    (h8 : (B ++ tail).length % 8 = 0) (hlim : s.stackLimit = none := by assumption) :
     step s .cstr = ({ s with pos := s.pos + 8 * (l.length + 1), ds := .str (l.map Char.ofNat) :: s.ds }, .ok ()) := by
   have hBl : B.length = 8 * (l.length + 1) := by rw [hB]; simp
   obtain ⟨hfit, hsl⟩ := slice_of_drop hpos hin hBl
@@ -269,11 +274,9 @@ theorem step_cstr_eval (l : List Nat) (hl : ∀ b ∈ l, 0 < b ∧ b < 256) (hB 
       s.base + s.pos + 8 * (l.length + 1) ≤ s.base + s.input.length := by omega
   have htake : List.take (8 * (l.length + 1)) (B ++ tail) = B := by rw [← hBl]; exact List.take_left
   have h8' : ¬ ((B ++ tail).length % 8 ≠ 0) := by omega
-  simp only [step, nulRead, rest, hpos, if_true, lift, hin, h8', if_false, hscan, moveThen, h3, and_self,
-    pushC, htake]
+  simp only [step, nulRead_eq, rest, hpos, if_true, lift, hin, h8', if_false, hscan, full_none hlim, Bool.false_eq_true,
+    htake]
   rw [hB, cstrChars_bytes l hl]
-  congr 2
-  omega
 
 end
 
@@ -305,7 +308,7 @@ theorem u64_roundtrip (u : UInt64) (big : Bool) :
 theorem parse_field (f : Field) (s : CurState) (tail : List Bool)
     (hok : f.Ok) (hpos : s.pos ≤ s.input.length) (hin : s.input.drop s.pos = f.bits ++ tail)
     (hbuf : s.base + s.input.length ≤ usizeMaxN)
-    (hcstr : f.isCstr = true → (f.bits ++ tail).length % 8 = 0) :
+    (hcstr : f.isCstr = true → (f.bits ++ tail).length % 8 = 0) (hlim : s.stackLimit = none := by assumption) :
     ∃ be, run s f.parseProg =
       ({ s with pos := s.pos + f.width, ds := f.value :: s.ds, bigEndian := be }, .ok ()) := by
   cases f with
@@ -441,22 +444,22 @@ def RecOk : List Field → Prop
   | [] => True
   | f :: fs => f.Ok ∧ (f.isCstr = true → (packAll (f :: fs)).length % 8 = 0) ∧ RecOk fs
 
-theorem state_eta (s : CurState) :
+theorem state_eta (s : CurState) (hlim : s.stackLimit = none := by assumption) :
     ({ s with pos := s.pos + 0, ds := [] ++ s.ds, bigEndian := s.bigEndian } : CurState) = s := by
   cases s; simp
 
 theorem parse_all : ∀ (fs : List Field) (s : CurState), RecOk fs → s.pos ≤ s.input.length →
-    s.input.drop s.pos = packAll fs → s.base + s.input.length ≤ usizeMaxN →
+    s.input.drop s.pos = packAll fs → s.base + s.input.length ≤ usizeMaxN → s.stackLimit = none →
     ∃ be, run s (parseAll fs) =
       ({ s with pos := s.pos + (packAll fs).length, ds := (fs.map Field.value).reverse ++ s.ds,
                 bigEndian := be }, .ok ()) := by
   intro fs
   induction fs with
   | nil =>
-    intro s _ _ _ _
+    intro s _ _ _ _ _
     exact ⟨s.bigEndian, by simp [parseAll, run_nil, packAll_nil, state_eta]⟩
   | cons f fs ih =>
-    intro s hok hpos hin hbuf
+    intro s hok hpos hin hbuf hlim
     obtain ⟨hf, hc, hrest⟩ := hok
     rw [packAll_cons] at hin
     obtain ⟨be1, h1⟩ := parse_field f s (packAll fs) hf hpos hin hbuf (by rw [← packAll_cons]; exact hc)
@@ -464,7 +467,7 @@ theorem parse_all : ∀ (fs : List Field) (s : CurState), RecOk fs → s.pos ≤
     have hdrop : List.drop (s.pos + f.width) s.input = packAll fs := by
       rw [← List.drop_drop, hin, ← Field.bits_length f, List.drop_left]
     obtain ⟨be2, h2⟩ := ih { s with pos := s.pos + f.width, ds := f.value :: s.ds, bigEndian := be1 }
-      hrest hfit hdrop hbuf
+      hrest hfit hdrop hbuf hlim
     refine ⟨be2, ?_⟩
     have : parseAll (f :: fs) = f.parseProg ++ parseAll fs := by simp [parseAll]
     rw [this, run_append_ok h1, h2]
@@ -490,7 +493,7 @@ theorem step_bo' (s : CurState) (big : Bool) : step s (boOp big) = ({ s with big
   step_bo s big
 
 /-- the piece a field's pack words leave, and what `>bitstr` makes of it -/
-theorem piece_spec (f : Field) (s : CurState) (hok : f.Ok) :
+theorem piece_spec (f : Field) (s : CurState) (hok : f.Ok) (hlim : s.stackLimit = none := by assumption) :
     ∃ be c, f.piece s = ({ s with bigEndian := be }, .ok c) ∧ concatElem c = .ok f.bits := by
   cases f with
   | int w sg big form v =>
@@ -500,13 +503,13 @@ theorem piece_spec (f : Field) (s : CurState) (hok : f.Ok) :
       unfold usizeMaxN; omega
     cases form
     · exact ⟨big, .bitstr (fromInt big v w), by
-        cases big <;> simp [Field.piece, Field.packProg, run, boOp, step, pushC, popUsize, popCell, lift,
+        cases big <;> simp [Field.piece, Field.packProg, run, boOp, step, pushC, full, hlim, popUsize, popCell, lift,
           toUsize_nat w hw, packIntBo, Cell.toXint, Cell.value], by simp [concatElem, Field.bits]⟩
     · exact ⟨s.bigEndian, .bitstr (fromInt big v w), by
-        simp [Field.piece, Field.packProg, run, step, pushC, popCell, lift, packIntBo, Cell.toXint,
+        simp [Field.piece, Field.packProg, run, step, pushC, full, hlim, popCell, lift, packIntBo, Cell.toXint,
           Cell.value, byteorder], by simp [concatElem, Field.bits]⟩
     · exact ⟨big, .bitstr (fromInt big v w), by
-        cases big <;> simp [Field.piece, Field.packProg, run, boOp, step, pushC, popCell, lift, packIntBo,
+        cases big <;> simp [Field.piece, Field.packProg, run, boOp, step, pushC, full, hlim, popCell, lift, packIntBo,
           Cell.toXint, Cell.value, byteorder], by simp [concatElem, Field.bits]⟩
   | flt w big form x =>
     simp only [Field.Ok] at hok
@@ -514,32 +517,32 @@ theorem piece_spec (f : Field) (s : CurState) (hok : f.Ok) :
     have h64 : (Cell.int 64).toUsize = .ok 64 := by decide
     rcases hok with rfl | rfl <;> cases form
     · exact ⟨big, .bitstr (fromInt big (f64to32 x).toNat 32), by
-        cases big <;> simp [Field.piece, Field.packProg, run, boOp, step, pushC, popUsize, popCell, lift,
+        cases big <;> simp [Field.piece, Field.packProg, run, boOp, step, pushC, full, hlim, popUsize, popCell, lift,
           h32, packFloatBo, Cell.toReal, Cell.value], by simp [concatElem, Field.bits]⟩
     · exact ⟨s.bigEndian, .bitstr (fromInt big (f64to32 x).toNat 32), by
-        simp [Field.piece, Field.packProg, run, step, pushC, popCell, lift, packFloatBo, Cell.toReal,
+        simp [Field.piece, Field.packProg, run, step, pushC, full, hlim, popCell, lift, packFloatBo, Cell.toReal,
           Cell.value, byteorder], by simp [concatElem, Field.bits]⟩
     · exact ⟨big, .bitstr (fromInt big (f64to32 x).toNat 32), by
-        cases big <;> simp [Field.piece, Field.packProg, run, boOp, step, pushC, popCell, lift, packFloatBo,
+        cases big <;> simp [Field.piece, Field.packProg, run, boOp, step, pushC, full, hlim, popCell, lift, packFloatBo,
           Cell.toReal, Cell.value, byteorder], by simp [concatElem, Field.bits]⟩
     · exact ⟨big, .bitstr (fromInt big x.toNat 64), by
-        cases big <;> simp [Field.piece, Field.packProg, run, boOp, step, pushC, popUsize, popCell, lift,
+        cases big <;> simp [Field.piece, Field.packProg, run, boOp, step, pushC, full, hlim, popUsize, popCell, lift,
           h64, packFloatBo, Cell.toReal, Cell.value], by simp [concatElem, Field.bits]⟩
     · exact ⟨s.bigEndian, .bitstr (fromInt big x.toNat 64), by
-        simp [Field.piece, Field.packProg, run, step, pushC, popCell, lift, packFloatBo, Cell.toReal,
+        simp [Field.piece, Field.packProg, run, step, pushC, full, hlim, popCell, lift, packFloatBo, Cell.toReal,
           Cell.value, byteorder], by simp [concatElem, Field.bits]⟩
     · exact ⟨big, .bitstr (fromInt big x.toNat 64), by
-        cases big <;> simp [Field.piece, Field.packProg, run, boOp, step, pushC, popCell, lift, packFloatBo,
+        cases big <;> simp [Field.piece, Field.packProg, run, boOp, step, pushC, full, hlim, popCell, lift, packFloatBo,
           Cell.toReal, Cell.value, byteorder], by simp [concatElem, Field.bits]⟩
   | raw b =>
-    exact ⟨s.bigEndian, .bitstr b, by simp [Field.piece, Field.packProg, run, step, pushC],
+    exact ⟨s.bigEndian, .bitstr b, by simp [Field.piece, Field.packProg, run, step, pushC, full, hlim],
       by simp [concatElem, Field.bits]⟩
   | str str =>
-    exact ⟨s.bigEndian, .str str, by simp [Field.piece, Field.packProg, run, step, pushC],
+    exact ⟨s.bigEndian, .str str, by simp [Field.piece, Field.packProg, run, step, pushC, full, hlim],
       by simp [concatElem, Field.bits]⟩
   | bytes l =>
     simp only [Field.Ok] at hok
-    exact ⟨s.bigEndian, intVec l, by simp [Field.piece, Field.packProg, run, step, pushC],
+    exact ⟨s.bigEndian, intVec l, by simp [Field.piece, Field.packProg, run, step, pushC, full, hlim],
       by simp [intVec, concatElem, Field.bits, concatVec_ints l hok]⟩
   | cstr l =>
     simp only [Field.Ok] at hok
@@ -549,19 +552,19 @@ theorem piece_spec (f : Field) (s : CurState) (hok : f.Ok) :
       rcases hb with hb | hb
       · exact (hok b hb).2
       · omega
-    exact ⟨s.bigEndian, intVec (l ++ [0]), by simp [Field.piece, Field.packProg, run, step, pushC],
+    exact ⟨s.bigEndian, intVec (l ++ [0]), by simp [Field.piece, Field.packProg, run, step, pushC, full, hlim],
       by simp only [intVec, concatElem, Field.bits, concatVec_ints _ hall]⟩
 
-theorem pieces_spec : ∀ (fs : List Field) (s : CurState), (∀ f ∈ fs, f.Ok) →
+theorem pieces_spec : ∀ (fs : List Field) (s : CurState), (∀ f ∈ fs, f.Ok) → s.stackLimit = none →
     ∃ be cs, pieces s fs = ({ s with bigEndian := be }, .ok cs) ∧
       concatVec (CellList.ofList cs) = .ok (packAll fs) := by
   intro fs
   induction fs with
-  | nil => intro s _; exact ⟨s.bigEndian, [], by simp [pieces], by simp [CellList.ofList, concatVec, packAll_nil]⟩
+  | nil => intro s _ _; exact ⟨s.bigEndian, [], by simp [pieces], by simp [CellList.ofList, concatVec, packAll_nil]⟩
   | cons f fs ih =>
-    intro s hok
+    intro s hok hlim
     obtain ⟨be1, c, hp, hc⟩ := piece_spec f s (hok f (by simp))
-    obtain ⟨be2, cs, hps, hcs⟩ := ih { s with bigEndian := be1 } (fun x hx => hok x (by simp [hx]))
+    obtain ⟨be2, cs, hps, hcs⟩ := ih { s with bigEndian := be1 } (fun x hx => hok x (by simp [hx])) hlim
     refine ⟨be2, c :: cs, ?_, ?_⟩
     · simp only [pieces, hp, hps]
     · simp only [CellList.ofList, concatVec, hc, hcs, packAll_cons]
@@ -576,32 +579,32 @@ theorem splitBy_flatten {α : Type} : ∀ (sizes : List Nat) (l : List α), (spl
   | cons n ns ih => intro l; simp [splitBy, ih]
 
 theorem toBitstr_vec_eval (s : CurState) (cs : List Cell) (bits : List Bool)
-    (h : concatVec (CellList.ofList cs) = .ok bits) :
+    (h : concatVec (CellList.ofList cs) = .ok bits) (hlim : s.stackLimit = none := by assumption) :
     run s [.push (.vec (CellList.ofList cs)), .toBitstr] = ({ s with ds := .bitstr bits :: s.ds }, .ok ()) := by
-  simp [run, step, pushC, popCell, lift, bitstrConcat, Cell.value, h]
+  simp [run, step, pushC, full, hlim, popCell, lift, bitstrConcat, Cell.value, h]
 
 theorem emitGroups_spec : ∀ (gs : List (List Field)) (s : CurState) (o : List Bool),
     (∀ g ∈ gs, ∀ f ∈ g, f.Ok) → s.output = some o →
-    s.outputLen + (packAll gs.flatten).length ≤ usizeMaxN →
+    s.outputLen + (packAll gs.flatten).length ≤ usizeMaxN → s.stackLimit = none →
     ∃ be, emitGroups s gs =
       ({ s with bigEndian := be, output := some (o ++ packAll gs.flatten), outputLen := s.outputLen + (packAll gs.flatten).length }, .ok ()) := by
   intro gs
   induction gs with
   | nil =>
-    intro s o _ ho _
+    intro s o _ ho _ _
     refine ⟨s.bigEndian, ?_⟩
     cases s
     simp_all [emitGroups, packAll_nil]
   | cons g gs ih =>
-    intro s o hok ho hlen
-    obtain ⟨be1, cs, hp, hc⟩ := pieces_spec g s (hok g (by simp))
+    intro s o hok ho hlen hlim
+    obtain ⟨be1, cs, hp, hc⟩ := pieces_spec g s (hok g (by simp)) hlim
     simp only [List.flatten_cons, packAll_append, List.length_append] at hlen ⊢
     have hnov : ¬ (s.outputLen + (packAll g).length > usizeMaxN) := by omega
     have hrun : run { s with bigEndian := be1 } [.push (.vec (CellList.ofList cs)), .toBitstr, .emit] =
         ({ s with bigEndian := be1, output := some (o ++ packAll g), outputLen := s.outputLen + (packAll g).length }, .ok ()) := by
-      simp [run, step, pushC, popCell, popBitstr, lift, bitstrConcat, Cell.value, hc, Cell.toBitstr, hnov, ho]
+      simp [run, step, pushC, full, hlim, popCell, popBitstr, lift, bitstrConcat, Cell.value, hc, Cell.toBitstr, hnov, ho]
     obtain ⟨be2, h2⟩ := ih { s with bigEndian := be1, output := some (o ++ packAll g), outputLen := s.outputLen + (packAll g).length } (o ++ packAll g)
-      (fun g' hg' => hok g' (by simp [hg'])) rfl (by simp; omega)
+      (fun g' hg' => hok g' (by simp [hg'])) rfl (by simp; omega) hlim
     refine ⟨be2, ?_⟩
     simp only [emitGroups, hp, hrun, h2]
     simp [List.append_assoc, Nat.add_assoc]
